@@ -167,6 +167,10 @@ def build_grid(c, with_coords=False):
     ds = xr.Dataset({f"v_{d}": ((d,), np.zeros(n)) for d, n in sizes.items()})
     if with_coords:
         ds = ds.assign_coords({d: (d, np.arange(n) * 1.5) for d, n in sizes.items()})
+    # dimensions of the dataset that belong to no axis (time steps, ensemble members): the data handed to an
+    # operation may be a selection along them
+    for d, n in (c.get("ds_extra") or {}).items():
+        ds = ds.assign_coords({d: (d, np.arange(n) * 10.0)})
     coords = {a: {p: d for p, d in cs} for a, cs in c["coords"]}
     g = Grid(ds, coords=coords, periodic=c["periodic"], boundary=c["boundary"],
              fill_value=c["fill"], autoparse_metadata=False)
